@@ -229,6 +229,14 @@ class Ctx:
             return ("exc", type(e).__name__, e)
 
 
+def _has_excluded(v):
+    if v is EXCLUDED:
+        return True
+    if isinstance(v, (tuple, list)):
+        return any(_has_excluded(x) for x in v)
+    return False
+
+
 def obs_equal(a, b):
     if isinstance(a, (tuple, list)) and isinstance(b, (tuple, list)):
         return len(a) == len(b) and all(obs_equal(x, y) for x, y in zip(a, b))
@@ -290,7 +298,7 @@ class Runner:
                     rctx = Ctx("replay", real_pkg, witness=wit, prop=self.prop)
                     fam.fn(rctx, **fam.params)
                     robs = rctx.obs
-                    cut = [i for i, (l, v) in enumerate(sobs) if v is EXCLUDED]
+                    cut = [i for i, (l, v) in enumerate(sobs) if _has_excluded(v)]
                     if cut:
                         sobs, robs = sobs[:cut[0]], robs[:cut[0]]     # outcome outside the claim from here on
                     elif ctx.ended_early:
